@@ -18,7 +18,7 @@ BUDGET_S = {"quick": 150, "thorough": 2400}
 RULE = ("Files are generated per registered suffix from that language's comment forms (line, block, "
         "decorated-star, doc, Markdown link, HTML), code lines and decoy tags in strings/markup, with "
         "nesting <=4, tags alone / after prose / on line k of n / several per comment (start+end, two starts, two ends) / followed by code, "
-        "LF or CRLF, ASCII or multi-byte prose, with or without a leading UTF-8 byte order mark; comments inside the code part of string interpolations (JS/TS template literals, JSX "
+        "inside class / function / element bodies, inside 30-150 nested constructs, LF or CRLF, ASCII or multi-byte prose, with or without a leading UTF-8 byte order mark; comments inside the code part of string interpolations (JS/TS template literals, JSX "
         "expression containers, shell $( ), Python f-strings, Ruby #{}, Kotlin ${}, C# $\"{}\", PHP embedded in markup). Truth is recorded while writing. A case is one file; it is "
         "non-trivial when it has >=2 blocks and (nesting or a decoy). Distinct = hash of file bytes + suffix.")
 ASSUMPTIONS = [
@@ -58,6 +58,10 @@ def plan(tier, seed):
     for suffix in (langs.ALL_SUFFIXES if tier == "thorough" else ["py", "rs", "js", "md", "html", "go", "sql", "java"]):
         if suffix != "swift":
             jobs.append({"k": "far", "suffix": suffix, "seed": seed, "flavour": "rel"})
+    # deep: the blocks sit inside 30 / 70 / 150 nested constructs (if-statements, elements, mappings)
+    for suffix in langs.ALL_SUFFIXES:
+        if langs.SUFFIX_LANG[suffix] in langs.NEST and suffix != "swift":
+            jobs.append({"k": "deep", "suffix": suffix, "seed": seed, "flavour": "rel"})
     for suffix in langs.ALL_SUFFIXES:
         if langs.SUFFIX_LANG[suffix] in langs.INTERP:
             for i in range(2 if tier == "quick" else 20):
@@ -203,7 +207,8 @@ def run_job(job, ctx):
             r = rng("c03r", job["seed"], suffix, job["i"], j)
             o = gen.Opts(eol=r.choice(["\n", "\n", "\r\n"]), multibyte=r.random() < 0.5,
                          attrs_fn=_attrs_fn(script), max_depth=4, max_items=6, max_blocks=14, foreign=True,
-                         final_newline=r.random() < 0.85, bom=r.random() < 0.12)
+                         final_newline=r.random() < 0.85, bom=r.random() < 0.12,
+                         container=("wrap" if r.random() < 0.25 else None))     # inside a class / function / element body
             g = gen.gen_file(r, lang, o)
             # the file may live in a sub-directory (whole-name suffixes such as Makefile / go.mod are looked up by base name)
             where = r.choice(["", "", "pkg/", "a.b/c d/"])
@@ -212,6 +217,12 @@ def run_job(job, ctx):
         for j in range(6):
             r = rng("c03md", job["seed"], suffix, job["i"], j)
             out.append(check_file(ctx, suffix, _md_nested(r, script), flavour, dict(job, j=j)))
+    elif job["k"] == "deep":
+        for j, n in enumerate((30, 70, 70, 150)):
+            r = rng("c03deep", job["seed"], suffix, j)
+            o = gen.Opts(eol=r.choice(["\n", "\r\n"]) if j == 2 else "\n", attrs_fn=_attrs_fn(script), max_depth=2, max_blocks=5, container=("deep", n), decoys=(j % 2 == 0))
+            g = gen.gen_file(r, lang, o)
+            out.append(check_file(ctx, suffix, g, flavour, dict(job, j=j)))
     elif job["k"] == "far":
         for j, (fl, lp) in enumerate(((66000, 0), (0, 70000), (300, 300))):
             r = rng("c03far", job["seed"], suffix, j)
